@@ -36,6 +36,7 @@ def run(tier, rep):
     jobs = [("collide", dict(Family='"collide"', M=5, Part=0, Parts=1, EmitMod=1, DocN=3)),
             ("order", dict(Family='"order"', M=13, Part=0, Parts=1, EmitMod=1, DocN=2)),
             ("cast", dict(Family='"cast"', M=3, Part=0, Parts=1, EmitMod=1 if thorough else 3, DocN=2)),
+            ("ietwin", dict(Family='"ietwin"', M=4, Part=0, Parts=1, EmitMod=1, DocN=1)),
             ("dyn", dict(Family='"dyn"', M=5, Part=0, Parts=1, EmitMod=1 if thorough else 2, DocN=3)),
             ("all M=2", dict(Family='"all"', M=2, Part=0, Parts=1, EmitMod=1, DocN=3))]
     if thorough:
@@ -98,7 +99,7 @@ def run(tier, rep):
     rep.cov["rule"] = ("B1: declaration trees (M nodes over 34 node variants: field/const/object/array/concat x xpath x type x no_trim x keep) "
                        "x records (<=3 nodes), plus the directed families 'collide' (identical declarations in anchoring and non-anchoring "
                        "position), 'order' (array with 11 elements) and 'dyn' (xpath_dynamic whose computation succeeds, is empty or fails, next to a "
-                       "declaration with the same text), 'cast' (every typed source x every result type); Stream.tla: every input of <=3/4 records and persistent siblings x targets /*/b, /*/* x declaration "
+                       "declaration with the same text), 'cast' (every typed source x every result type), 'ietwin' (script calls differing only in ignore_error, one throwing); Stream.tla: every input of <=3/4 records and persistent siblings x targets /*/b, /*/* x declaration "
                        "trees that read outside the record (`..`-anchored objects, ../a, ../b), expected value per record from the partial tree at "
                        "delivery time; each rendered three ways (inline, every subtree as a template, "
                        "xpath_dynamic) for XML and JSON input; expectations from RefEval in Eval.tla. B2: random trees (<=8/10 nodes) and "
